@@ -133,6 +133,7 @@ def run(repo, tier):
     r.rule("R7.2", "keys contain the kind, the value's type name, the like key and one component per operand, in order", floor=6)
     r.rule("R7.3", "Expr.__new__ exits only through registration; the expression table is written once per miss, never on a hit", floor=6)
     r.rule("R7.4", "Type singletons: __hash__ uses a subset of the fields __eq__ compares; the table is consulted before insertion; every scalar type spelling is parsed to its own (kind, bits)", floor=17)
+    r.rule("R7.6", "the key of a constant compares equal to itself for every value (no raw NaN-capable component): identical constructions give the same object", floor=1)
     r.rule("R7.5", "no mapping or set in expr.py/context.py is keyed by a raw scalar value (a second interning table in front of registration)", floor=2)
 
     rel = "expr.py"
@@ -311,6 +312,11 @@ def run(repo, tier):
         )
         if not raw and not encoders:
             raise AnalysisError("constant key: neither raw value nor an encoder found")
+        # the "if" direction: structurally identical constructions give the same object.  A key that contains the raw value is
+        # compared with ==, and a NaN is not equal to itself: two constants built from two NaN objects get different keys
+        r.ob("R7.6", "expr.py::Expr._compute_serialized constant key is reflexive for every value", not raw,
+             f"the key contains the raw value (`{norm_src(plain)}`), which is compared with ==: nan != nan, so constant(float('nan'), x) built twice gives two "
+             "objects (unless the very same NaN object is passed), although the constructions are structurally identical", loc(rel, plain))
 
     # ---- symbol branch
     sv = rvalue(branches["symbol"])
